@@ -635,8 +635,30 @@ def run_C11(res, tier, seed, t_end, bad):
         Bl.real_threads_smoke(res, tier, seed, t_end)
 
 
+def run_C14(res, tier, seed, t_end, bad):
+    import aio
+    # (1) blocking pops on the asyncio front-end: served, timed out, pipelined requests behind them
+    aio.run_async_campaign(res, 'C14', aio.plan_async(70), budget(tier, 30, 800), seed, t_end)
+    # (2) every other command family through the asyncio socket against the same model as the sync socket
+    if not res.findings:
+        fams = ['str', 'key', 'ttl', 'hash', 'list', 'set', 'zset', 'scan', 'sort', 'server', 'tx', 'pubsub']
+        nb = [f for f in fams]
+        plan = Cp.plan_multi(nb, 60, churn=True, mutate=0.05)
+        aio.run_async_campaign(res, 'C14', noblock(plan), budget(tier, 20, 400), seed + 1, t_end)
+
+
+def noblock(plan):
+    def p(s, rng):
+        for ev in plan(s, rng):
+            if ev[0] == 'cmd' and Cn.name_of(ev[2]) in ('blpop', 'brpop', 'brpoplpush'):
+                continue
+            yield ev
+    return p
+
+
 RUNNERS = {
     'C11': run_C11,
+    'C14': run_C14,
     'C01': generic('C01', Cp.plan_single(['str', 'key', 'ttl'], 60, select=0.03), Cp.plan_single(['str', 'key', 'ttl'], 80, select=0.03), 60, 1200),
     'C02': generic('C02', Cp.plan_single(['list', 'hash', 'set', 'sort', 'key'], 60), Cp.plan_single(['list', 'hash', 'set', 'sort', 'key'], 80), 60, 1200),
     'C03': generic('C03', Cp.plan_single(['zset', 'zset', 'set', 'key'], 60), Cp.plan_single(['zset', 'zset', 'set', 'key'], 80), 60, 1200, OBSERVERS['C03']),
